@@ -8,6 +8,7 @@ import MocModel.Drv.Conc
 import MocModel.Drv.Codec
 import MocModel.Drv.Auth
 import MocModel.Drv.Gate
+import MocModel.Drv.Merge
 open Moc.Drv
 
 def handlers : List (String × Handler) := [
@@ -21,7 +22,8 @@ def handlers : List (String × Handler) := [
   ("C15", ConcD.handler),
   ("codec", CodecD.handler),
   ("C01", AuthD.handler),
-  ("ws", GateD.handler)
+  ("ws", GateD.handler),
+  ("merge", MergeD.handler)
 ]
 
 def main (args : List String) : IO UInt32 := do
